@@ -143,7 +143,18 @@ def run_seq(case):
     tspec.validate(tsp)
     T = tspec.build(tsp)
     C = tspec.build({"k": kind, "a": tsp, "m": case.get("m", "annotate")})
-    exp, off, conv = expect_seq(kind, T, elems, pol)
+    if kind in ("set", "frozenset"):
+        # the source is turned into a set before its elements are parsed: equal elements (True / 1) collapse to the first one
+        seen, uniq = set(), []
+        for e in elems:
+            v = codec.decode(e)
+            if v not in seen:
+                seen.add(v)
+                uniq.append(e)
+        elems_eff = uniq
+    else:
+        elems_eff = elems
+    exp, off, conv = expect_seq(kind, T, elems_eff, pol)
     import utype
     x = codec.decode({"t": src, "v": elems})
     got = oracle.outcome(utype.type_transform, x, C, _opts(pol))
